@@ -24,14 +24,26 @@ def model_check(chk, module, cfg, workers=8, timeout=600, heap=None, subst=None,
     return r
 
 
-def sim_scripts(chk, module, cfg, num, depth, seed, timeout=600, actvar='act', prefix='sim'):
+def sim_scripts(chk, module, cfg, num, depth, seed, timeout=600, actvar='act', prefix='sim', stepfn=None, subst=None):
     """tlc -simulate on Sim_<module>; every behaviour becomes a script (sequence of `act` records)."""
     d = chk.scratch(tlc.stage())
+    if subst:
+        p = os.path.join(d, cfg)
+        c = open(p).read()
+        for a, b in subst.items():
+            c = c.replace(a, b)
+        open(p, 'w').write(c)
     r, behs = tlc.simulate(d, 'Sim_' + module, cfg, num=num, depth=depth, seed=seed, timeout=timeout)
     scripts = []
     seen = set()
     for k, b in enumerate(behs):
-        steps = [tlaval.plain(s[actvar]) for s in b[1:]]
+        steps = []
+        for s in b[1:]:
+            st = tlaval.plain(s[actvar])
+            if stepfn:
+                st = dict(st)
+                st.update(stepfn(s))
+            steps.append(st)
         h = core.script_hash(steps)
         if h in seen or not steps:
             continue
@@ -124,6 +136,106 @@ def _result(d, name):
         return json.load(open(p))
     except Exception:
         return None
+
+
+def replay_parallel(chk, pkg, test, base, scripts, nproc=8, timeout=1800, env=None, key='scripts'):
+    """Split the scripts over nproc harness processes. Returns (lines, tracefile)."""
+    from concurrent.futures import ThreadPoolExecutor
+    binp = build(chk, pkg)
+    d = chk.scratch(tlc.scratch('vf-run-'))
+    nproc = max(1, min(nproc, len(scripts)))
+    chunks = [scripts[i::nproc] for i in range(nproc)]
+
+    def one(i):
+        sp = os.path.join(d, 'scripts%d.json' % i)
+        tp = os.path.join(d, 'impl%d.ndjson' % i)
+        pl = dict(base)
+        pl[key] = chunks[i]
+        json.dump(pl, open(sp, 'w'))
+        e = {'VERIF_SCRIPTS': sp, 'VERIF_TRACE': tp, 'VERIF_SEED': str(chk.seed)}
+        e.update(env or {})
+        rc, out = gobuild.run_test(binp, test, e, timeout=timeout, cwd=d)
+        return rc, out, tp
+
+    with ThreadPoolExecutor(nproc) as ex:
+        res = list(ex.map(one, range(nproc)))
+    lines = []
+    tracefile = os.path.join(d, 'impl.ndjson')
+    with open(tracefile, 'w') as f:
+        for rc, out, tp in res:
+            if rc != 0 or not os.path.exists(tp):
+                chk.infra('replay driver %s failed (rc %s):\n%s' % (test, rc, out[-3000:]))
+            for x in open(tp):
+                if x.strip():
+                    f.write(x)
+                    lines.append(json.loads(x))
+    return lines, tracefile
+
+
+def tlc_lines_parallel(chk, module_file, cfg, lines, result_name, nproc=8, timeout=1800, subst=None, groupkey='tr'):
+    """Run a trace module (Trace_X / Props_X) on the lines split at trace boundaries over nproc TLC processes.
+    Returns a list of (global line numbers list, result dict) per chunk, in order."""
+    from concurrent.futures import ThreadPoolExecutor
+    order = []
+    idx = {}
+    for i, ln in enumerate(lines, 1):
+        k = ln.get(groupkey)
+        if k not in idx:
+            idx[k] = []
+            order.append(k)
+        idx[k].append(i)
+    nproc = max(1, min(nproc, len(order)))
+    chunks = [[] for _ in range(nproc)]
+    for j, k in enumerate(order):
+        chunks[j % nproc] += idx[k]
+
+    def one(c):
+        d = chk.scratch(tlc.stage())
+        with open(os.path.join(d, 'impl.ndjson'), 'w') as f:
+            for i in chunks[c]:
+                f.write(json.dumps(lines[i - 1]) + '\n')
+        if subst:
+            pth = os.path.join(d, cfg)
+            t = open(pth).read()
+            for a, b in subst.items():
+                t = t.replace(a, b)
+            open(pth, 'w').write(t)
+        r = tlc.run(d, module_file, cfg, workers=1, timeout=timeout, heap='4g')
+        res = _result(d, result_name)
+        return r, res
+
+    with ThreadPoolExecutor(nproc) as ex:
+        res = list(ex.map(one, range(nproc)))
+    out = []
+    for c, (r, rs) in enumerate(res):
+        if rs is None:
+            chk.infra('%s did not finish:\n%s' % (module_file, r.stdout[-3000:]))
+        out.append((chunks[c], rs, r))
+    return out
+
+
+def judge_parallel(chk, module, lines, nproc=8, timeout=1800):
+    bad = []
+    res = tlc_lines_parallel(chk, 'Props_' + module, 'Props_%s.cfg' % module, lines, 'props_result.json', nproc, timeout)
+    for sel, rs, r in res:
+        if rs['lines'] != len(sel):
+            chk.infra('Props_%s read %d of %d lines' % (module, rs['lines'], len(sel)))
+        bad += [[f, sel[j - 1]] for f, j in rs['bad']]
+    chk.log('judge Props_%s: %d lines in %d TLC runs, %d false formula instances, %.1fs' % (
+        module, len(lines), len(res), len(bad), max(r.wall for _, _, r in res)))
+    return bad
+
+
+def conform_parallel(chk, module, lines, nproc=8, timeout=1800, subst=None):
+    rej = []
+    res = tlc_lines_parallel(chk, 'Trace_' + module, 'Trace_%s.cfg' % module, lines, 'trace_result.json', nproc, timeout, subst)
+    for sel, rs, r in res:
+        if rs['lines'] != len(sel):
+            chk.infra('Trace_%s read %d of %d lines' % (module, rs['lines'], len(sel)))
+        rej += [sel[j - 1] for j in rs['rej']]
+    chk.log('conform Trace_%s: %d lines in %d TLC runs, %d rejected, %.1fs' % (
+        module, len(lines), len(res), len(rej), max(r.wall for _, _, r in res)))
+    return rej
 
 
 def by_trace(lines):
